@@ -129,9 +129,14 @@ impl Core {
                 .get_parent_block(&parent)
                 .await?
                 .expect("We should have all the ancestors by now");
-            to_commit.push_front(ancestor.clone());
+            // Stop at the first ancestor that is already committed (or is genesis).
+            if ancestor.round <= self.last_committed_round {
+                break;
+            }
+            to_commit.push_back(ancestor.clone());
             parent = ancestor;
         }
+        // The queue holds the newest block at the front and the oldest at the back.
         to_commit.push_front(block.clone());
 
         // Save the last committed block.
